@@ -7,29 +7,6 @@ From Coq Require Import String.
 From TW Require Export Ast GenParser GenFail.
 Open Scope N_scope.
 
-(* ---------- fmt.Sprintf for the verbs used in fail.go *)
-Definition fmt_verb (c : N) : bool := (c =? 115) || (c =? 100) || (c =? 84) || (c =? 118).
-
-Fixpoint fmtb (t : bytes) (args : list bytes) : bytes :=
-  match t with
-  | [] => []
-  | c0 :: t0 =>
-    if c0 =? 37 then
-      match t0 with
-      | c :: t' =>
-        if fmt_verb c then
-          match args with
-          | a :: args' => a ++ fmtb t' args'
-          | [] => 37 :: fmtb t0 args
-          end
-        else 37 :: fmtb t0 args
-      | [] => [37]
-      end
-    else c0 :: fmtb t0 args
-  end.
-
-Definition fmt (t : string) (args : list bytes) : bytes := fmtb (bs t) args.
-
 (* ---------- parser state *)
 Definition comp_entry := (nat * nat * bytes * list (nat * bytes * list stmt))%type.
 
